@@ -810,6 +810,11 @@ pub fn scan_file(rel: &str, src: &str, g: &Globals) -> FileScan {
                 "File" if path_next && (n3 == "open" || n3 == "create") => hit = Some(("file-system", format!("File::{}", n3))),
                 "temp_dir" | "tempdir" | "tempfile" | "NamedTempFile" => hit = Some(("file-system", s.to_string())),
                 "as" if n1 == "*" && (n2 == "const" || n2 == "mut") => hit = Some(("address", "as-raw-pointer".into())),
+                "addr_of" | "addr_of_mut" => hit = Some(("address", s.to_string())),
+                "as_ptr" | "as_mut_ptr" if p1 == "." && n1 == "(" => hit = Some(("address", format!("{}()", s))),
+                "MaybeUninit" | "assume_init" | "set_len" => hit = Some(("uninitialised-memory", s.to_string())),
+                "FuturesUnordered" | "JoinSet" | "join_all" | "select_all" => hit = Some(("concurrency", s.to_string())),
+                "select" if n1 == "!" && p1 == ":" => hit = Some(("concurrency", "select!".into())),
                 _ => {}
             }
             if hit.is_none() && g.statics.contains(s) && p1 != "static" {
@@ -1063,7 +1068,7 @@ pub const HARNESSES: &[(&str, &str, &str, &str)] = &[
     ("ORSetDSTHarness", "M", "crdt-orset", ""),
     ("VectorClockDSTHarness", "M", "crdt-vclock", ""),
     ("CrashSimulator", "M", "dst", "through DSTSimulation; its own API (checkpoint, simulate_state_loss, complete_recovery, …): family dst-api preset crash, explored"),
-    ("DSTSimulation", "M", "dst", ""),
+    ("DSTSimulation", "M", "dst", "runs: family dst (stepwise + run_operations(ops) as one call); its public API as a subclass uses it (new / with_nodes / with_faults, random_running_node, maybe_crash_node, crash_node, start_recovery, advance_time, step, record_operation, rng, context().local_time with the drawn clock offsets, BUGGIFY statistics of a fresh process): family dst-api preset sim, predicted by SimMore.runDstApi"),
     ("BatchRunner", "E", "batch", "run_default / run_sequential compared with single runs of the same seeds (family batch, preset runner)"),
     ("RedisDSTSimulation", "M", "redis-dst", "Zipf table probed from the real sampler"),
     ("ZipfianGenerator", "M", "redis-dst", "sample() probed for every draw value: monotone step function, input of the model"),
@@ -1476,7 +1481,8 @@ fn sites(tree: &Tree, out: &mut Out) -> serde_json::Value {
                         })
                     }
                     "sorted" => !(body.contains(". sort") || body.contains("BTreeMap") || body.contains("BTreeSet") || body.contains("sorted")),
-                    "commutative" => !ss.iter().all(|s| COMMUTATIVE.iter().any(|c| s.stmt.contains(c))),
+                    // an order-insensitive fold — but not over floats: an f64 sum / product in hash order differs in the last bits
+                    "commutative" => !ss.iter().all(|s| COMMUTATIVE.iter().any(|c| s.stmt.contains(c)) && !(s.stmt.contains("f64") && (s.stmt.contains(". sum (") || s.stmt.contains(". product (") || s.stmt.contains("+ =")))),
                     _ => false,
                 };
                 if broken {
